@@ -123,7 +123,7 @@ func onlyTwins(d []string) []string {
 	return out
 }
 
-var paths = []string{"Find", "FindInline", "First", "Last", "Take", "Count", "Pluck", "Scan", "Rows", "FindInBatches",
+var paths = []string{"Find", "FindInline", "First", "Last", "Take", "Count", "Pluck", "Scan", "Rows", "FindInBatches", "CountThenFind", "CountThenPluck",
 	"Update", "Updates", "UpdateColumn", "Delete", "UnscopedFind", "UnscopedCount", "UnscopedDelete", "UnscopedUpdate"}
 
 type chain struct {
@@ -293,6 +293,26 @@ func runChain(c *core.Ctx, cc chain, table []pred.Row) (problems []string, nontr
 			add("Count=%d exceeds the number of live rows %d", n, len(table))
 		}
 		nontrivial = len(want) > 0
+	case "CountThenFind", "CountThenPluck":
+		// the pagination idiom: one query value used for Count and then for the page
+		q := build(cc, root.Model(&SRow{}))
+		var n int64
+		if err := q.Count(&n).Error; err != nil {
+			add("error: %v", err)
+			break
+		}
+		if !firstIsOr && n != int64(len(want)) {
+			add("Count=%d, live matches %d", n, len(want))
+		}
+		if cc.path == "CountThenFind" {
+			var out []SRow
+			res := q.Limit(100).Find(&out)
+			checkRead(idsOf(out), res.Error, true)
+		} else {
+			var ids []int64
+			res := q.Pluck("id", &ids)
+			checkRead(ids, res.Error, true)
+		}
 	case "Pluck":
 		var ids []int64
 		res := build(cc, root.Model(&SRow{})).Pluck("id", &ids)
@@ -556,7 +576,7 @@ func loadAssoc(r *core.Rand) assocData {
 }
 
 var assocPaths = []string{"PreloadItems", "PreloadItemsCond", "PreloadNested", "PreloadAll", "PreloadPet", "PreloadTags", "JoinsBoss", "InnerJoinsBoss", "JoinsPet",
-	"AssocFindItems", "AssocCountItems", "AssocFindTags", "AssocCountTags", "AssocFindPet", "PreloadUnscoped"}
+	"AssocFindItems", "AssocCountItems", "AssocFindTags", "AssocCountTags", "AssocFindPet", "PreloadUnscoped", "UnscopedJoinsBoss", "UnscopedInnerJoinsBoss", "UnscopedJoinsPet"}
 
 func itemIDs(xs []SItem) []int64 {
 	out := make([]int64, len(xs))
@@ -678,6 +698,54 @@ func runAssoc(c *core.Ctx, path string, d assocData) (problems []string) {
 				if seen[id] && inner && d.liveBoss[id] == 0 {
 					add("item %d has no live boss but was returned by InnerJoins", id)
 				}
+			}
+		}
+	case "UnscopedJoinsBoss", "UnscopedInnerJoinsBoss":
+		// with Unscoped the marked rows are visible again: also the joined relation's
+		var items []SItem
+		db := root.Unscoped().Joins("Boss")
+		if path == "UnscopedInnerJoinsBoss" {
+			db = root.Unscoped().InnerJoins("Boss")
+		}
+		if err := db.Order("s_items.id").Find(&items).Error; err != nil {
+			add("error: %v", err)
+			return
+		}
+		rows, _ := vdb.RowMaps(H.SQL, "SELECT id, boss_id FROM s_items ORDER BY id")
+		wantBoss := map[int64]int64{}
+		for _, r := range rows {
+			if b, ok := r["boss_id"].(int64); ok {
+				wantBoss[r["id"].(int64)] = b
+			} else if path == "UnscopedJoinsBoss" {
+				wantBoss[r["id"].(int64)] = 0
+			}
+		}
+		if len(items) != len(wantBoss) {
+			add("Unscoped join returned %d items, %d expected (live and soft-deleted items, inner join keeps those with any boss row)", len(items), len(wantBoss))
+		}
+		for _, it := range items {
+			got := int64(0)
+			if it.Boss != nil {
+				got = it.Boss.ID
+			}
+			if w, ok := wantBoss[it.ID]; ok && got != w {
+				add("Unscoped: item %d joined Boss id %d, its boss row (live or soft-deleted) is %d", it.ID, got, w)
+			}
+		}
+	case "UnscopedJoinsPet":
+		if err := root.Unscoped().Joins("Pet").Order("owners.id").Find(&owners).Error; err != nil {
+			add("error: %v", err)
+			return
+		}
+		pets := vdb.Ints(H.SQL, "SELECT count(*) FROM s_pets")[0]
+		withPet := vdb.Ints(H.SQL, "SELECT count(DISTINCT owner_id) FROM s_pets")[0]
+		// a LEFT JOIN yields one row per (owner, pet) pair, owners without any pet once
+		if int64(len(owners)) != pets+int64(d.owners)-withPet {
+			add("Unscoped Joins(Pet) returned %d rows, want %d (every pet row, live or soft-deleted, joins)", len(owners), pets+int64(d.owners)-withPet)
+		}
+		for _, o := range owners {
+			if has := vdb.Ints(H.SQL, "SELECT count(*) FROM s_pets WHERE owner_id = ?", o.ID)[0]; has > 0 && o.Pet == nil {
+				add("Unscoped: owner %d has %d pet rows but none was joined", o.ID, has)
 			}
 		}
 	case "JoinsPet":
@@ -806,8 +874,8 @@ func run(c *core.Ctx) {
 var Engine = &core.Engine{
 	ID:    "C08",
 	Level: "exploration",
-	Rule: "twin tables: random live rows (0..8) each with a soft-deleted twin of identical user columns; chains of 0..3 Where/Not/Or units (C02 generator, id-free, leading Or included, hostile renderings in 2 of 3 cases) x 18 read/write paths (Find, inline, First/Last/Take, Count, Pluck, Scan, Rows, FindInBatches, Update(s), UpdateColumn, Delete + repeated Delete, Unscoped Find/Count/Update/Delete), " +
-		"plus 15 association paths (Preload plain/cond/nested/all/has-one/many2many/unscoped, Joins/InnerJoins belongs-to, Joins has-one, Association Find/Count) over random owner graphs whose children all have soft-deleted twins; distinct = (op:form per unit, path) resp. (path, graph sizes); non-trivial = the chain matches at least one live row (so it also matches a twin)",
+	Rule: "twin tables: random live rows (0..8) each with a soft-deleted twin of identical user columns; chains of 0..3 Where/Not/Or units (C02 generator, id-free, leading Or included, hostile renderings in 2 of 3 cases) x 20 read/write paths (Find, inline, First/Last/Take, Count, Pluck, Scan, Rows, FindInBatches, Count-then-Find / Count-then-Pluck on one query value, Update(s), UpdateColumn, Delete + repeated Delete, Unscoped Find/Count/Update/Delete), " +
+		"plus 18 association paths (Preload plain/cond/nested/all/has-one/many2many/unscoped, Joins/InnerJoins belongs-to, Joins has-one, the same joins under Unscoped, Association Find/Count) over random owner graphs whose children all have soft-deleted twins; distinct = (op:form per unit, path) resp. (path, graph sizes); non-trivial = the chain matches at least one live row (so it also matches a twin)",
 	Assumptions: []string{
 		"conditions never mention the primary key, so a twin matches exactly when its live row does",
 		"FindInBatches runs whose cursor does not advance are cut by a logical batch bound and only checked for twin ids (non-termination is C15's subject)",
